@@ -289,6 +289,8 @@ wait:
 	}
 	tA := time.Now()
 	partB(run, seed)
+	siblingDiscovery(run)
+	run.Require("sibling_discovery_rounds", 8)
 	run.Note("partB_wall_s", time.Since(tA).Seconds())
 	needA := int64(rep.Pick(90000, 3000000))
 	if rep.Mode() == "race" {
